@@ -35,7 +35,9 @@ def check_eval(ctx, e, rng, tmp):
     T = len(lab)
     P = rng.normal(size=(E, T)) * rng.choice([1e-3, 1.0, 30.0])
     O = rng.normal(size=E)
-    names = np.array(["s%d" % (i % 2) for i in range(E)], dtype=str)
+    # sample names are free text (cell-line names with non-ASCII characters, names that differ only in such a character, empty)
+    pool = [["s0", "s1"], ["HT-29", "ht-29 µ"], ["中", "中文"], ["é", "e"], ["", " "]][int(rng.integers(5))]
+    names = np.array([pool[i % 2] for i in range(E)], dtype=str)
     st, me = outcome(ModelEvaluation, predictions=P, observations=O, chain_ids=np.array(lab, dtype=int), sample_names=names)
     if st != "ok":
         return "ModelEvaluation(...) raised " + me
@@ -150,6 +152,19 @@ def check_corr_and_mse(ctx, rng):
                     return "combinatoric space is not encoded with the screen's own treatment ids"
         if set(int(x) for x in sp.sample_ids) != {int(sid)}:
             return "combinatoric space is not encoded with the screen's own sample id"
+    # a study-size mapping (more than ten thousand unordered combinations): still every combination, each once
+    big = 150
+    bmap = (np.array(["ctl"] + ["t%03d" % i for i in range(big - 1)], dtype=str), np.array([0.0] + [1.0 + (i % 3) for i in range(big - 1)]),
+            np.array([-1] + list(range(big - 1)), dtype=int))
+    bscr = Screen(treatment_names=np.array([["t000", "t001"], ["t002", "ctl"]], dtype=str), treatment_doses=np.array([[1.0, 2.0], [3.0, 0.0]]),
+                  sample_names=np.array(["s0", "s1"], dtype=str), plate_names=np.array(["p", "p"], dtype=str), control_treatment_name="ctl", treatment_mapping=bmap)
+    st, sp = outcome(generate_full_combinatoric_space, 0, bscr)
+    if st != "ok":
+        return "generate_full_combinatoric_space raised on a mapping of %d conditions: %s" % (big, sp)
+    pairs_ = {tuple(sorted(int(x) for x in row)) for row in sp.treatment_ids}
+    if sp.size != big * (big - 1) // 2 or len(pairs_) != sp.size:
+        return "combinatoric space of a mapping of %d conditions has %d rows / %d distinct combinations, expected C(%d,2) = %d" % (
+            big, sp.size, len(pairs_), big, big * (big - 1) // 2)
     st, cm = outcome(correlation_matrix, scr, h)
     if st != "ok":
         return "correlation_matrix raised " + cm
